@@ -224,7 +224,7 @@ def _run_lines(binary, lines, tag):
         return []
     d = os.path.join(SCRATCH, "cases")
     os.makedirs(d, exist_ok=True)
-    nsh = min(NPROC, max(1, len(lines) // 50))
+    nsh = min(NPROC, max(1, len(lines) // (50 if binary == HARNESS_BIN else 6)))
     # balance the load: expensive cases come in runs, so deal them out in a fixed pseudo-random order
     order = list(range(len(lines)))
     st = 0x9E3779B97F4A7C15
